@@ -51,21 +51,31 @@ theorem passes_never_index_out_of_range (F : Nat) : SafeAll (shrinkScript F) := 
 /-- the passes, run against any property: no crash, and the run is the abstract shrinker on the
     candidates the passes tried — so everything proved for every candidate sequence holds for
     the shrinker as implemented, wherever its deadline cuts it -/
-theorem passes_refine_shrinkWith (p : Prog) (hP : PruneOK p) (hW : PruneWF p) (F : Nat) (s : SS) (hr : RecWF s.rc) :
+theorem passes_refine_shrinkWith (p : Prog) (hP : PruneOK p) (F : Nat) (s : SS) (hr : RecWF s.rc) :
     ∃ s' cands, (shrinkScript F).run p s = .ok ((), s') ∧
       shrinkWith p s.shr cands = (s'.rc.data, s'.err) ∧ s'.log = cands.reverse ++ s.log ∧ RecWF s'.rc :=
-  shrinkScript_run p hP hW F s hr
+  shrinkScript_run p hP F s hr
 
 /-- result of the concrete shrinker: not larger than the start, same failure site, pruned
     recording of an executed failing run -/
-theorem concrete_shrinker_result (p : Prog) (hP : PruneOK p) (hW : PruneWF p) (F : Nat) (s : SS) (hr : RecWF s.rc)
+theorem concrete_shrinker_result (p : Prog) (hP : PruneOK p) (F : Nat) (s : SS) (hr : RecWF s.rc)
     (h : FromRun p s.shr) :
     ∃ s', (shrinkScript F).run p s = .ok ((), s') ∧ sle s'.rc.data s.rc.data ∧ tbKey s'.err = tbKey s.err ∧
       FromRun p ⟨s'.rc.data, s'.err⟩ := by
-  obtain ⟨s', cands, h1, h2, _, _⟩ := shrinkScript_run p hP hW F s hr
+  obtain ⟨s', cands, h1, h2, _, _⟩ := shrinkScript_run p hP F s hr
   have := shrinkWith_spec p cands s.shr h
   rw [h2] at this
   exact ⟨s', h1, this.1, this.2.1, this.2.2⟩
+
+/-- `prune()` of the recording of ANY run of ANY program keeps exactly the words the model calls
+    `kept` (everything except finished discarded groups) … -/
+theorem prune_data_is_kept (p : Prog) (src : Src) (ts : TS) :
+    (prunedOfToks (checkOnce p src ts).toks).data = (checkOnce p src ts).kept :=
+  checkOnce_pruned_data p src ts
+
+/-- … and leaves every finished group inside the data: the recordings the shrinker holds are
+    always well-formed (the premise of `passes_never_index_out_of_range`) -/
+theorem pruned_recording_well_formed (toks : List Tok) : RecWF (prunedOfToks toks) := prunedOfToks_wf toks
 
 /-- the premises are satisfiable: the empty recording is well-formed -/
 example : RecWF Rec.empty := by intro g hg; cases hg
